@@ -478,7 +478,7 @@ def dnastring_view_ctors(F, rep, rule="C15.4"):
         vals = {"storage": Opaque("Vec<u64>", {"storage"}), "len": atom_int(64, "n")}
         return Adt(DS, 0, [vals[n] for n in dnames])
     if sorted(dnames) != ["len", "storage"]:
-        rep.violated(rule, "DnaString/fields", "anchor-missing: DnaString fields are %s" % dnames, witness={"kind": "anchor-missing"})
+        rep.inconclusive(rule, "DnaString/fields", "role discovery: the private representation of DnaString has fields %s (expected storage, len)" % dnames)
         return
     specs = [("prefix", ["k"], lambda: ({}, 0), {"k": 1}, [("Le", {"k": 1, "n": -1})]),
              ("suffix", ["k"], lambda: ({"n": 1, "k": -1}, 0), {"k": 1}, [("Le", {"k": 1, "n": -1})]),
@@ -584,7 +584,7 @@ def node_iter_state(F, c="c", n="N"):
 def node_kmer_iter_tables(F, rep, rule="C18.1"):
     names = [f["name"] for f in F.adts.get(NKI, {"variants": [{"fields": []}]})["variants"][0]["fields"]]
     if not {"kmer_id", "kmer", "num_kmers", "node_seq_slice"} <= set(names):
-        rep.violated(rule, "NodeKmerIter/fields", "anchor-missing: NodeKmerIter fields are %s" % names, witness={"kind": "anchor-missing"})
+        rep.inconclusive(rule, "NodeKmerIter/fields", "role discovery: the private fields of NodeKmerIter are %s (expected kmer_id, kmer, num_kmers, node_seq_slice)" % names)
         return
     ATOMS = ("c", "N", "m", "K")
 
@@ -748,6 +748,8 @@ def node_kmer_iter_tables(F, rep, rule="C18.1"):
                 if p.startswith("graph::Node::<") and nm == "sequence":
                     n = recv(it, args[0])
                     return Opaque("DnaStringSlice", {"seq"}, {"seq": "node@%s" % affs(n.fields[0]), "len": "n"})
+                if "PackedDnaStringSet" in p and nm == "get" and len(args) == 2:
+                    return Opaque("DnaStringSlice", {"seq"}, {"seq": "node@%s" % affs(args[1]), "len": "n"})
                 return SeqOracles.on_call(self, it, fn, args, dest_ty, term, caller)
 
         def mk_args5(h, adt=adt):
@@ -827,6 +829,15 @@ class ViewOracles(Oracles):
             return Tup([])
         if path == "dna_string::DnaString::with_capacity" or path == "dna_string::DnaString::new":
             return Opaque("DnaString", {"owned"})
+        if path == "dna_string::DnaString::extend" and len(args) == 2 and isinstance(recv(it, args[0]), Opaque) and "owned" in tags_of(recv(it, args[0])):
+            from .models import drain_iter
+            items = drain_iter(it, args[1], term, caller)
+            if items is None:
+                raise Undecided("DnaString::extend from %r" % (args[1],))
+            for x in items:
+                t = [y for y in tags_of(x) if y.startswith("view:")]
+                self.pushed.append(t[0] if t else None)
+            return Tup([])
         return NotImplemented
 
     def unknown_compare(self, it, op, a, b):
